@@ -813,7 +813,8 @@ def or1(F, R):
     # provenance of the new cluster
     for (b, t, cl, val, kind) in _update_fat_calls(fn):
         if kind == "EOF":
-            R.require(derives_from_call(fn, cl, ("FatVolume::find_next_free_cluster",)) and not any(r[0] == "field" for r in roots(fn, cl, stop=lambda n_: path_matches(n_, "FatVolume::find_next_free_cluster"))),
+            _rs = roots(fn, cl, stop=lambda n_: path_matches(n_, "FatVolume::find_next_free_cluster"))
+            R.require(bool(_rs) and all(r[0] == "call" and r[1] and path_matches(r[1], "FatVolume::find_next_free_cluster") for r in _rs),
                       fn, "new-from-free-search", "the cluster marked END_OF_FILE must be a result of find_next_free_cluster (an entry verified free), got %s with roots %s" % (tstr(cl), sorted(str(r) for r in roots(fn, cl))), fn.loc(b))
         if kind == "link":
             R.require(derives_from_call(fn, val, ("FatVolume::find_next_free_cluster",)), fn, "link-to-new", "predecessor must be linked to the newly found cluster", fn.loc(b))
